@@ -130,6 +130,42 @@ def run(ctx):
             events.append({"op": "big-sqrt", "a": n2l(sq), "p": n2l(m), "out": n2l(r), "q": n2l((r * r - sq) // m if r * r >= sq else 0),
                            "cls": "1mod8"})
             ctx.nontrivial.add(("hard-sqrt", m, sq))
+    # a walk that keeps coming back to the last few (argument, modulus) pairs with other calls in between, mixing the three
+    # functions (results may not depend on earlier calls: memo tables, recycled buffers, cached moduli)
+    walk_m = [3, 5, 7, 11, 13, 17, 29, 41, 73, 97, 101, 113, 193, 257, 9973, 46337]
+    recent = []
+    for t in range(400 if quick else 4000):
+        if recent and rnd.random() < 0.6:
+            a_, m_ = rnd.choice(recent[-4:])
+            if rnd.random() < 0.5:
+                m_ = rnd.choice(walk_m)             # the same argument under another modulus
+        else:
+            m_ = rnd.choice(walk_m)
+            a_ = rnd.randrange(-m_, 2 * m_)
+        recent.append((a_, m_))
+        kind = t % 3
+        if kind == 0 and math.gcd(a_, m_) == 1 and abs(a_) * m_ < 2 ** 30:
+            try:
+                out, ok = int(nt.inverse_mod(a_, m_)), True
+            except BaseException:  # noqa
+                out, ok = 0, False
+            events.append({"op": "inverse", "a": a_, "m": m_, "out": out, "ok": ok})
+        elif kind == 1:
+            try:
+                o_ = int(nt.jacobi(a_, m_))
+            except BaseException:  # noqa
+                o_ = 7
+            events.append({"op": "jacobi", "n": m_, "lo": a_, "hi": a_, "outs": [o_]})
+        elif m_ < 300:
+            outs = []
+            for x_ in range(m_):
+                try:
+                    outs.append(int(nt.square_root_mod_prime(x_, m_)))
+                except nt.SquareRootError:
+                    outs.append(-1)
+                except BaseException:  # noqa
+                    outs.append(-2)
+            events.append({"op": "sqrt", "p": m_, "outs": outs})
     # primes p = 1 (mod 8 * 3 * 5 * ... * q): every prime up to q is a residue, so for a = c^2 the discriminant
     # b^2 - 4a = (b - 2c)(b + 2c) is a residue for every b up to about q - 2c: the search for the auxiliary value of the
     # p = 1 (mod 8) branch has to go that far (no fixed bound is enough).  p is found by a Miller-Rabin search in the harness
